@@ -64,6 +64,7 @@ func c10Success(q mq.Packet, t byte, specDecodable bool, desc string) *core.Find
 	mk := func(class, what string) *core.Finding {
 		return &core.Finding{Class: tname + "/" + class, Sig: map[string]string{"type": tname}, Detail: desc + ": " + what}
 	}
+	resetGlobals()
 	w := &env.Writer{FailAfter: -1}
 	var n int64
 	var err error
@@ -106,6 +107,7 @@ func c10Success(q mq.Packet, t byte, specDecodable bool, desc string) *core.Find
 // c10Fault: the writer accepts k bytes and fails.
 func c10Fault(q mq.Packet, t byte, k int, desc string) *core.Finding {
 	tname := bind.TypeNames[t]
+	resetGlobals()
 	E := &env.InjectedError{Tag: "W"}
 	w := &env.Writer{FailAfter: k, E: E}
 	var n int64
